@@ -7,7 +7,7 @@ from __future__ import annotations
 import z3
 
 from pyvc import builtins_ as B
-from pyvc.contract import Contract
+from pyvc.contract import Contract, LoopSpec
 from pyvc.values import (Builtin, ClassVal, DictVal, ExcVal, FuncVal, ListVal, Obj, Opaque, SetVal, Sym, SymList, TupleVal, SeqVal,
                          Unsupported)
 
@@ -482,18 +482,148 @@ class _AnyStackCycle:
         return [("no-other-outcome", False)]
 
 
+
+class _MarkSite(Contract):
+    """call-site contract of invalidate_cache_entry inside the marking loop: ghost `marked` = number of frames marked so far, all of
+    them the topmost ones; a call must mark the next frame down (its name as text, its period) - anything else fails here"""
+    name = f"{SIM}.invalidate_cache_entry"
+    prop = ()
+
+    def outcomes(self, I, ctx, a, old):
+        st = ctx.ghost["symstack"]
+        k = ctx.ghost["marked"]
+        idx = st.n - 1 - k
+        nm, per = a["variable"], a["period"]
+        parts = getattr(nm, "parts", None)
+        if parts and len(parts) == 1 and parts[0][0] == "str" and isinstance(parts[0][1], Opaque):
+            nm = parts[0][1]            # str() of a name that is text already
+        name_ok = isinstance(nm, Opaque) and nm.e is not None and nm.e.sort() == st.v.sort()
+        ctx.oblige("mark.the-frame-marked-is-the-next-one-down-from-the-top",
+                   z3.And(k >= 0, k < st.n, (nm.e == st.NAME(idx)) if name_ok else z3.BoolVal(False),
+                          B._zb(B.eq_formula(I, ctx, per, st.period_of(B.wrap(idx))))), kind="requires")
+        ctx.ghost["marked"] = smt.simp(k + 1)
+        return ("return", None)
+
+    def post(self, I, ctx, a, out, old):
+        return []
+
+
+class _AnyStackMarking:
+    descr = ("for an evaluation stack of ANY length: the frames marked are the topmost ones, one after the other, down to and including "
+             "the (max_spiral_loops+1)-th frame of the variable from the top - or the whole stack when the variable occurs less often")
+
+    @staticmethod
+    def setup(I, ctx):
+        w = World18(I, ctx, "simple", 0)
+        st = SymStack(I, ctx, w)
+        ctx.ghost["symstack"] = st
+        ctx.ghost["marked"] = z3.IntVal(0)
+        msl = ctx.fresh_int("max_spiral_loops")
+        ctx.assume(msl >= 1)
+        w.sim.fields["max_spiral_loops"] = Sym(msl)
+        # ghost: AB(k) = how many of the k topmost frames carry the variable
+        st.AB = z3.Function(ctx.fresh_name("OF_VARIABLE_AMONG_TOP"), z3.IntSort(), z3.IntSort())
+        ctx.assume(st.AB(0) == 0)
+        return {"self": w.sim, "variable": st.variable, "__st": st, "__msl": msl, "__w": w}
+
+    @staticmethod
+    def unfold(ctx, st, k):
+        ctx.assume(z3.Implies(z3.And(k >= 0, k < st.n), st.AB(k + 1) == st.AB(k) + z3.If(st.NAME(st.n - 1 - k) == st.v, 1, 0)))
+
+    @staticmethod
+    def inv(ctx, I, vars):
+        st, msl = ctx.ghost["symstack"], B.zint(vars["self"].fields["max_spiral_loops"])
+        k = B._z(vars["__k0"])
+        return [("frames-marked-so-far-are-the-topmost-ones", ctx.ghost["marked"] == k),
+                ("count-is-the-number-of-those-that-carry-the-variable", B.zint(vars["count"]) == st.AB(k)),
+                ("the-cut-is-not-reached-yet", st.AB(k) <= msl)]
+
+    @staticmethod
+    def havoc(ctx, I, vars):
+        st = ctx.ghost["symstack"]
+        k = B._z(vars["__k0"])
+        _AnyStackMarking.unfold(ctx, st, k)
+        ctx.ghost["marked"] = k
+        vars["count"] = Sym(ctx.fresh_int("hv_count"))
+
+    @staticmethod
+    def post(I, ctx, a, out):
+        st, msl = a["__st"], a["__msl"]
+        if out[0] != "return":
+            return [("no-exception", False)]
+        V = ctx.ghost["marked"]
+        _AnyStackMarking.unfold(ctx, st, V - 1)
+        return [("marked-the-topmost-frames-down-to-and-including-the-cut-or-the-whole-stack",
+                 z3.And(V >= 0, V <= st.n, z3.Or(z3.And(V == st.n, st.AB(V) <= msl),
+                                                 z3.And(V >= 1, st.AB(V) == msl + 1, st.AB(V - 1) == msl, st.NAME(st.n - V) == st.v)))),
+                ("stack-untouched", a["__w"].sim.fields["tracer"].fields["_stack"].seq is st.seq)]
+
+
+
+class SimInvalidateCacheEntry(Contract):
+    name = f"{SIM}.invalidate_cache_entry"
+    prop = ("C02",)
+    top_level = True
+    descr = "marking adds exactly the (variable, period) pair to the set of entries to purge and removes nothing from it"
+
+    def setup(self, I, ctx, case):
+        w = World18(I, ctx, "simple", 0)
+        p0 = mk_period(I, "month", mk_instant(I, 2019, 1, 1), 1)
+        marks = w.sim.fields["invalidated_caches"]
+        earlier = TupleVal(["u", p0])
+        I.call(ctx, I.getattr(ctx, marks, "add"), [earlier], {})
+        earlier = list(marks.items.values())[0]
+        return {"self": w.sim, "variable": "v", "period": sym_period(I, ctx, "month", "p"), "__earlier": earlier, "__marks": marks}
+
+    def outcomes(self, I, ctx, a, old):
+        # call-site form (callers that need more install their own): the pair joins the set
+        t = TupleVal([a["variable"], a["period"]])
+        I.call(ctx, I.getattr(ctx, a["self"].fields["invalidated_caches"], "add"), [t], {})
+        return ("return", None)
+
+    def post(self, I, ctx, a, out, old):
+        if out[0] != "return":
+            return [("no-exception", False)]
+        marks = a["self"].fields["invalidated_caches"]
+        vals = list(marks.items.values())
+        new = [m for m in vals if m is not a["__earlier"]]
+        return [("the-same-set-object", marks is a["__marks"]), ("what-was-marked-before-stays-marked", any(m is a["__earlier"] for m in vals)),
+                ("exactly-one-new-mark", len(new) == 1),
+                ("it-is-this-variable-at-this-period", len(new) == 1 and isinstance(new[0], TupleVal) and new[0].items[0] == "v" and new[0].items[1] is a["period"])]
+
+
 class SimInvalidateSpiral(Contract):
     name = f"{SIM}.invalidate_spiral_variables"
     prop = ("C02",)
     top_level = True
     cases = tuple((sh, msl) for sh in (("v",), ("v", "v"), ("w", "v", "v"), ("v", "w", "v"), ("v", "v", "w", "v"), ("w", "v", "w", "v", "x"),
-                                       ("v", "v", "v")) for msl in (1, 2))
+                                       ("v", "v", "v")) for msl in (1, 2)) + (("any-stack", None),)
     descr = ("exactly the frames from the top of the stack down to and including the (max_spiral_loops+1)-th frame of the variable "
-             "are marked for purge (stack shapes up to five frames, periods symbolic)")
-    inline = (f"{SIM}.invalidate_cache_entry",)
+             "are marked for purge - proved for a stack of any length (loop invariant over a ghost count of the frames marked; the "
+             "marking call enters through a contract that only accepts the next frame down) and, with the real set of marks, on "
+             "enumerated stack shapes of up to five frames")
+    loop_heads = {0: 'for frame in reversed(self.tracer.stack)'}
+
+    @property
+    def inline(self):
+        return () if (getattr(self, "current_case", None) or (None,))[0] == "any-stack" else (f"{SIM}.invalidate_cache_entry",)
+
+    @property
+    def loops(self):
+        if not (getattr(self, "current_case", None) or (None,))[0] == "any-stack":
+            return {}
+        ls = LoopSpec(_AnyStackMarking.inv, _AnyStackMarking.havoc)
+        ls.heap_frame = ()
+        return {0: ls}
+
+    def local_contracts(self):
+        return {_MarkSite.name: _MarkSite()} if (getattr(self, "current_case", None) or (None,))[0] == "any-stack" else {}
 
     def setup(self, I, ctx, case):
         shape, msl = case
+        self._any = shape == "any-stack"
+        if self._any:
+            return _AnyStackMarking.setup(I, ctx)
         w = World18(I, ctx, "simple", 0)
         frames = [dict_of([("name", s), ("period", sym_period(I, ctx, "month", "f%d" % i))]) for i, s in enumerate(shape)]
         w.stack.items[:] = frames
@@ -501,6 +631,8 @@ class SimInvalidateSpiral(Contract):
         return {"self": w.sim, "variable": "v", "__w": w, "__frames": frames, "__shape": shape}
 
     def post(self, I, ctx, a, out, old):
+        if "__st" in a:
+            return _AnyStackMarking.post(I, ctx, a, out)
         w, frames, shape = a["__w"], a["__frames"], a["__shape"]
         msl = a["self"].fields["max_spiral_loops"]
         if out[0] != "return":
@@ -859,7 +991,7 @@ def install(I):
     pass
 
 
-CONTRACTS = [SimCalculateFull(), SimInnerCalculate(), SimRunFormula(), SimCheckForCycle(), SimInvalidateSpiral(), SimPurge(),
+CONTRACTS = [SimCalculateFull(), SimInnerCalculate(), SimRunFormula(), SimCheckForCycle(), SimInvalidateCacheEntry(), SimInvalidateSpiral(), SimPurge(),
              VarGetFormula(), VarDefaultArray(), HolderDefaultArray(), SimCastFormulaResult(), TracerBrowse(), FlatTraceGet()]
 
 
